@@ -31,6 +31,36 @@ var verifTargets = map[string]string{
 	"callbacks":       `{"{$request.body#/u}":{"post":{"responses":{"200":{"description":"d"}}}}}`,
 }
 
+// two further distinct objects per kind, stored under the keys "a~1b" and "a/b"
+// (reference tokens "a~01b" and "a~1b": JSON-pointer escapes must be undone in the right order)
+var verifTargetsTilde = map[string]string{
+	"schemas":         `{"type":"string","minLength":4}`,
+	"parameters":      `{"name":"p4","in":"query","schema":{"type":"string"}}`,
+	"responses":       `{"description":"d4"}`,
+	"requestBodies":   `{"description":"d4","content":{"text/plain":{"schema":{"type":"string"}}}}`,
+	"headers":         `{"description":"d4","schema":{"type":"string"}}`,
+	"examples":        `{"value":4}`,
+	"links":           `{"operationId":"op4"}`,
+	"securitySchemes": `{"type":"http","scheme":"bearer"}`,
+	"callbacks":       `{"{$request.body#/u4}":{"post":{"responses":{"200":{"description":"d"}}}}}`,
+}
+
+var verifTargetsSlash = map[string]string{
+	"schemas":         `{"type":"string","minLength":5}`,
+	"parameters":      `{"name":"p5","in":"query","schema":{"type":"string"}}`,
+	"responses":       `{"description":"d5"}`,
+	"requestBodies":   `{"description":"d5","content":{"text/plain":{"schema":{"type":"string"}}}}`,
+	"headers":         `{"description":"d5","schema":{"type":"string"}}`,
+	"examples":        `{"value":5}`,
+	"links":           `{"operationId":"op5"}`,
+	"securitySchemes": `{"type":"http","scheme":"digest"}`,
+	"callbacks":       `{"{$request.body#/u5}":{"post":{"responses":{"200":{"description":"d"}}}}}`,
+}
+
+func verifEscapedEntries(k string) string {
+	return `"a~1b":` + verifTargetsTilde[k] + `,"a/b":` + verifTargetsSlash[k]
+}
+
 func verifComponentsFile(extra map[string]string) string {
 	var sb strings.Builder
 	sb.WriteString(`{"components":{`)
@@ -51,7 +81,11 @@ func verifComponentsFile(extra map[string]string) string {
 // verifFiles: the external files of the layout (root is /r/doc.json).
 func verifFiles() map[string]string {
 	files := map[string]string{}
-	files["/r/x.json"] = verifComponentsFile(nil)
+	esc := map[string]string{}
+	for _, k := range verifKinds {
+		esc[k] = verifEscapedEntries(k)
+	}
+	files["/r/x.json"] = verifComponentsFile(esc)
 	// nested directory: every T refers back to ../x.json (a chain through two files)
 	chain := map[string]string{}
 	var sb strings.Builder
@@ -76,7 +110,7 @@ func verifSlotDoc(kind, ref string) string {
 	r := `{"$ref":"` + ref + `"}`
 	comps := map[string]string{}
 	for _, k := range verifKinds {
-		comps[k] = `"T":` + verifTargets[k]
+		comps[k] = `"T":` + verifTargets[k] + `,` + verifEscapedEntries(k)
 	}
 	comps[kind] += `,"Slot":` + r
 	var sb strings.Builder
@@ -207,13 +241,17 @@ func verifC02Candidates(kind string) []string {
 		"d/y.json#/components/" + kind + "/Own",
 		"d/y.json#/components/" + kind + "/T", // chain back into ../x.json
 		"/r/x.json#/components/" + kind + "/T",
+		"#/components/" + kind + "/a~01b",       // key "a~1b" (not "a/b")
+		"#/components/" + kind + "/a~1b",        // key "a/b"
+		"x.json#/components/" + kind + "/a~01b", // the same in an external file
+		"x.json#/components/" + kind + "/a~1b",
 		"x.json#/components/" + kind + "/Missing", // dangling
 		"nofile.json#/components/" + kind + "/T",  // dangling file
 		"x.json#/components/" + other + "/T",      // wrong kind
 	}
 }
 
-//verif:harness id=C02 tier=quick,thorough witness=end,loaded,rejected bounds="one reference slot of each of the nine component kinds x 11 candidates (same document, whole external file, fragment, ./ and d/../ spellings, nested directory, chain through two files, absolute path, dangling fragment, dangling file, wrong kind) x entry point in {LoadFromDataWithPath, LoadFromURI}; files in memory; resolved Value compared (as JSON) with the object found by the harness's own resolver"
+//verif:harness id=C02 tier=quick,thorough witness=end,loaded,rejected bounds="one reference slot of each of the nine component kinds x 15 candidates (same document, whole external file, fragment, ./ and d/../ spellings, nested directory, chain through two files, absolute path, keys needing the JSON-pointer escapes ~0 and ~1 internal and external, dangling fragment, dangling file, wrong kind) x entry point in {LoadFromDataWithPath, LoadFromURI}; files in memory; resolved Value compared (as JSON) with the object found by the harness's own resolver"
 func verifH_C02_slots() {
 	kind := verifKinds[verifChoose("kind", len(verifKinds))]
 	cands := verifC02Candidates(kind)
@@ -430,5 +468,130 @@ func verifH_C02_positions() {
 	}
 	verifKnown("C02-nested-examples-and-encoding-headers-not-resolved", pos == 2 || pos == 7 || pos == 11)
 	verifAssert(resolved, "C02 positions: after a successful load every reference is resolved")
+	verifReach("end")
+}
+
+// ---- references nested inside externally loaded objects ----
+
+var verifNestedKinds = []string{"schemas", "parameters", "responses", "requestBodies", "headers"}
+
+func verifNestedObject(kind, nestedRef string) string {
+	r := `{"$ref":"` + nestedRef + `"}`
+	switch kind {
+	case "schemas":
+		return `{"type":"object","properties":{"n":` + r + `}}`
+	case "parameters":
+		return `{"name":"p","in":"query","schema":` + r + `}`
+	case "responses":
+		return `{"description":"d","content":{"text/plain":{"schema":` + r + `}}}`
+	case "requestBodies":
+		return `{"content":{"text/plain":{"schema":` + r + `}}}`
+	case "headers":
+		return `{"schema":` + r + `}`
+	}
+	return ""
+}
+
+func verifNestedSchemaRef(doc *T, kind string) *SchemaRef {
+	c := doc.Components
+	switch kind {
+	case "schemas":
+		if r := c.Schemas["Slot"]; r != nil && r.Value != nil {
+			return r.Value.Properties["n"]
+		}
+	case "parameters":
+		if r := c.Parameters["Slot"]; r != nil && r.Value != nil {
+			return r.Value.Schema
+		}
+	case "responses":
+		if r := c.Responses["Slot"]; r != nil && r.Value != nil {
+			if mt := r.Value.Content["text/plain"]; mt != nil {
+				return mt.Schema
+			}
+		}
+	case "requestBodies":
+		if r := c.RequestBodies["Slot"]; r != nil && r.Value != nil {
+			if mt := r.Value.Content["text/plain"]; mt != nil {
+				return mt.Schema
+			}
+		}
+	case "headers":
+		if r := c.Headers["Slot"]; r != nil && r.Value != nil {
+			return r.Value.Schema
+		}
+	}
+	return nil
+}
+
+//verif:harness id=C02 tier=quick,thorough witness=end bounds="a reference nested inside an externally loaded object (schema property, parameter/header schema, response/request-body media type schema) x the object reached by whole-file reference or by fragment, in a sub-directory or next to the root x nested reference spelled relative to its own file (same directory, child directory, parent directory), with a same-named decoy file next to the root document x both entry points; the nested reference resolves against the file that contains it and no other file is read"
+func verifH_C02_nested() { verifNestedRefs("C02") }
+
+func verifNestedRefs(id string) {
+	kind := verifNestedKinds[verifChoose("kind", len(verifNestedKinds))]
+	type layout struct{ ref, containing, nested string }
+	layouts := []layout{
+		{"d/w_" + kind + ".json", "/r/d/w.json", "s.json"},               // sub-directory, sibling file
+		{"w_" + kind + ".json", "/r/w.json", "d/s.json"},                 // next to root, child directory
+		{"d/w_" + kind + ".json", "/r/d/w.json", "../s.json"},            // sub-directory, parent directory
+		{"d/c.json#/components/" + kind + "/N", "/r/d/c.json", "s.json"}, // by fragment
+		{"d/e/w_" + kind + ".json", "/r/d/e/w.json", "../s.json"},        // two levels down, one up
+	}
+	li := verifChoose("layout", len(layouts))
+	l := layouts[li]
+	files := map[string]string{
+		"/r/s.json":     `{"type":"boolean"}`,
+		"/r/d/s.json":   `{"type":"integer","minimum":7}`,
+		"/s.json":       `{"type":"number"}`,
+		"/r/d/e/s.json": `{"type":"array"}`,
+	}
+	obj := verifNestedObject(kind, l.nested)
+	containing := ""
+	switch li {
+	case 3:
+		containing = "/r/d/c.json"
+		files[containing] = `{"components":{"` + kind + `":{"N":` + obj + `}}}`
+	default:
+		containing = path.Join("/r", l.ref)
+		files[containing] = obj
+	}
+	rootText := verifSlotDoc(kind, l.ref)
+	rootLoc := &url.URL{Path: "/r/doc.json"}
+	var reads []string
+	loader := NewLoader()
+	loader.IsExternalRefsAllowed = true
+	loader.ReadFromURIFunc = func(_ *Loader, u *url.URL) ([]byte, error) {
+		reads = append(reads, u.Path)
+		if u.Path == rootLoc.Path {
+			return []byte(rootText), nil
+		}
+		if t, ok := files[u.Path]; ok {
+			return []byte(t), nil
+		}
+		return nil, errors.New("no such file")
+	}
+	var doc *T
+	var err error
+	if verifChoose("entry", 2) == 0 {
+		doc, err = loader.LoadFromDataWithPath([]byte(rootText), rootLoc)
+	} else {
+		doc, err = loader.LoadFromURI(rootLoc)
+	}
+	verifAssert(err == nil && doc != nil, id+" nested: a document whose references all have targets loads")
+	if err != nil || doc == nil {
+		return
+	}
+	wantLoc := path.Join(path.Dir(containing), l.nested)
+	var want any
+	_ = json.Unmarshal([]byte(files[wantLoc]), &want)
+	nested := verifNestedSchemaRef(doc, kind)
+	verifAssert(nested != nil && nested.Value != nil, id+" nested: the nested reference is resolved")
+	if nested == nil || nested.Value == nil {
+		return
+	}
+	got, ok := verifAsTree(nested.Value)
+	verifAssert(ok && reflect.DeepEqual(got, want), id+" nested: a reference inside an external object resolves against the file that contains it")
+	for _, r := range reads {
+		verifAssert(r == rootLoc.Path || r == containing || r == wantLoc, id+" nested: only the files the references designate are read")
+	}
 	verifReach("end")
 }
